@@ -299,7 +299,7 @@ fn gen_background(rng: &mut Rng, wildcard_mass: bool) -> Bg {
 }
 
 const KINDS: [&str; 16] = [
-    "rand", "quant", "counts", "wfin", "rand", "quant", "counts", "const", "narrow", "wide", "rand", "wmass",
+    "rand", "quant", "counts", "wfin", "rand", "quant", "counts", "const", "narrow", "wide", "large", "wmass",
     "counts", "quant", "huge", "special",
 ];
 
@@ -484,8 +484,10 @@ fn gen_case(rng: &mut Rng, id: usize, tier: &str) -> String {
     let wmass = kind == "wmass";
     let bg = gen_background(rng, wmass);
     let cap = if wmass { 6 } else { 8 };
-    let m = gen_m(rng, cap);
-    let rows = gen_matrix(rng, kind, m, &bg);
+    let m = if kind == "large" { 9 + rng.below(8) as usize } else { gen_m(rng, cap) };
+    // `large`: too wide for the exact enumeration (structural checks and bit-exact replay only)
+    let mkind = if kind == "large" { *rng.pick(&["rand", "quant", "counts"]) } else { kind };
+    let rows = gen_matrix(rng, mkind, m, &bg);
     let (offset, scale) = params(&rows).unwrap_or((0.0, 1.0));
     let step = if scale > 0.0 && scale.is_finite() { 1.0 / scale } else { 1.0 };
     let d = (m as f64 / 2.0 + 1.0) * step;
